@@ -574,6 +574,10 @@ def streams(tier, rng):
         for rev in (0, 1):
             tree_cases.append(f"{attr} {rev} " + " ".join(toks))
 
+    # the (listed or to-be-listed) known finding goes last, so that a new failure is reported first
+    kf = [c for c in tree_cases if ";-1x;" in c and "c:i:-2=-2,-1=-1" in c]
+    tree_cases = [c for c in tree_cases if c not in kf] + kf
+
     def nt_tree(c, m):
         return len(c.split(" ")) >= 5 and not m.startswith("panic")
 
